@@ -88,9 +88,6 @@ Theorem bit_length_wraps_refuted :
 Proof. exists [0%Z; 268435456%Z]. split; [reflexivity|]. vm_compute. discriminate. Qed.
 
 (* ------------------------------------------------------------------ concat_elements *)
-Fixpoint map2 {A B C} (f : A -> B -> C) (a : list A) (b : list B) : list C :=
-  match a, b with x :: a', y :: b' => f x y :: map2 f a' b' | _, _ => [] end.
-
 Lemma offsets_from_app o a b :
   offsets_from o (a ++ b) = removelast (offsets_from o a) ++ offsets_from (o + Z.of_nat (length (concat a))) b.
 Proof.
